@@ -30,13 +30,12 @@ Inductive rlctx := RLQ (q : rqctx) | RLX (q : rqctx) | RLDrop | RLWake.
 Inductive rpc :=
 | RIdle
 | RTALoad (a : ractx)
-| RTACasR (a : ractx) (shq : bool) (srd : N)        (* observed: no WL, no WP *)
-| RTACasW (a : ractx) (swp shq : bool)              (* observed: no WL, no readers *)
+| RTACas (a : ractx) (swp shq : bool) (srd : N)     (* observed word: no WL; RD: no WP (swp unused); WR: no readers (srd unused) *)
 | RYield (k : rw) (linked : bool) | RSpinNext (k : rw) (linked : bool)
 | RPollNext (k : rw) (blk : bool)
 | RLLSwap (l : rlctx) | RLLLoad (l : rlctx) | RLLSpin (l : rlctx)
 | RQRearm (q : rqctx) | RQFor (q : rqctx) | RQLoad (q : rqctx)
-| RQCasR (q : rqctx) (shq : bool) (srd : N) | RQCasW (q : rqctx) (swp shq : bool)
+| RQCas (q : rqctx) (swp shq : bool) (srd : N)
 | RFix1 (f : rfixk) | RFix2 (f : rfixk)
 | RQUnl (q : rqctx) (acq : bool)
 | RPLoad (k : rw) | RPark (k : rw) | RBPark
@@ -139,8 +138,8 @@ Definition ta_fail s t (a : ractx) (e : mev) : option (rwstate * mev) :=
 Definition rdo_taload s t (a : ractx) : option (rwstate * mev) :=
   let e := EvLoad VState ro_ta_load (rword s) in
   match rkind_a a with
-  | RD => if wl s || wp s then ta_fail s t a e else rret s t (RTACasR a (hq s) (rd s)) e
-  | WR => if wl s || negb (N.eqb (rd s) 0) then ta_fail s t a e else rret s t (RTACasW a (wp s) (hq s)) e
+  | RD => if wl s || wp s then ta_fail s t a e else rret s t (RTACas a false (hq s) (rd s)) e
+  | WR => if wl s || negb (N.eqb (rd s) 0) then ta_fail s t a e else rret s t (RTACas a (wp s) (hq s) 0%N) e
   end.
 
 Definition rafter_llock s t (l : rlctx) : rwstate :=
@@ -229,11 +228,11 @@ Fixpoint rflush s t (ws : list (wk * nat)) : rwstate :=
 Definition wake_of s (h : nat) : list (wk * nat) :=
   match rnarm s h with Some k => [(k, h)] | None => [] end.
 
-Definition after_acq_a s t (a : ractx) (k : rw) : rpc :=
+Definition after_acq_a s t (a : ractx) : rpc :=
   match a with
   | RASpin WR true => RLLSwap (RLX (RQSync WR true))
-  | RAPoll k' b => match rfut s t with Some _ => RLLSwap (RLX (RQFut k' b)) | None => RCS k end
-  | _ => RCS k
+  | RAPoll k b => match rfut s t with Some _ => RLLSwap (RLX (RQFut k b)) | None => RCS k end
+  | _ => RCS (rkind_a a)
   end.
 
 Definition rwstep (s : rwstate) (t : nat) (c : rch) : option (rwstate * mev) :=
@@ -241,25 +240,28 @@ Definition rwstep (s : rwstate) (t : nat) (c : rch) : option (rwstate * mev) :=
   | RIdle => rdispatch s t c (rprog s t)
   | RWaitW => rdo_wait s t c
   | RTALoad a => rdo_taload s t a
-  | RTACasR a shq srd =>
-      let weak := match a with RATry _ => false | _ => true end in
-      let spur := weak && match c with RSpur => true | _ => false end in
-      let ok := negb (wl s) && negb (wp s) && Bool.eqb (hq s) shq && N.eqb (rd s) srd && negb spur in
-      let x := renc false false shq srd in
-      let e := if weak then EvCasW VState ro_ta_cas ro_ta_casf x (x + 8) (rword s) ok
-               else EvCas VState ro_ta_cas ro_ta_casf x (x + 8) (rword s) ok in
-      if ok then
-        let s1 := rlog (rs_rholders (rs_rd s (rd s + 1)%N) (t :: rholders s)) t (rres_a a) in
-        rret s1 t (after_acq_a s t a RD) e
-      else ta_fail s t a e
-  | RTACasW a swp shq =>
-      let ok := negb (wl s) && N.eqb (rd s) 0 && Bool.eqb (wp s) swp && Bool.eqb (hq s) shq in
-      let x := renc false swp shq 0 in
-      let e := EvCas VState ro_ta_cas ro_ta_casf x (x + 1) (rword s) ok in
-      if ok then
-        let s1 := rlog (rs_wholders (rs_wl s true) (t :: wholders s)) t (rres_a a) in
-        rret s1 t (after_acq_a s t a WR) e
-      else ta_fail s t a e
+  | RTACas a swp shq srd =>
+      match rkind_a a with
+      | RD =>
+          let weak := match a with RATry _ => false | _ => true end in
+          let spur := weak && match c with RSpur => true | _ => false end in
+          let ok := negb (wl s) && negb (wp s) && Bool.eqb (hq s) shq && N.eqb (rd s) srd && negb spur in
+          let x := renc false false shq srd in
+          let e := if weak then EvCasW VState ro_ta_cas ro_ta_casf x (x + 8) (rword s) ok
+                   else EvCas VState ro_ta_cas ro_ta_casf x (x + 8) (rword s) ok in
+          if ok then
+            let s1 := rlog (rs_rholders (rs_rd s (rd s + 1)%N) (t :: rholders s)) t (rres_a a) in
+            rret s1 t (after_acq_a s t a) e
+          else ta_fail s t a e
+      | WR =>
+          let ok := negb (wl s) && N.eqb (rd s) 0 && Bool.eqb (wp s) swp && Bool.eqb (hq s) shq in
+          let x := renc false swp shq 0 in
+          let e := EvCas VState ro_ta_cas ro_ta_casf x (x + 1) (rword s) ok in
+          if ok then
+            let s1 := rlog (rs_wholders (rs_wl s true) (t :: wholders s)) t (rres_a a) in
+            rret s1 t (after_acq_a s t a) e
+          else ta_fail s t a e
+      end
   | RYield k l => rret s t (RSpinNext k l) EvYield
   | RSpinNext k l =>
       match c with
@@ -295,25 +297,28 @@ Definition rwstep (s : rwstate) (t : nat) (c : rch) : option (rwstate * mev) :=
   | RQLoad q =>
       let e := EvLoad VState ro_q_load (rword s) in
       match rkind_q q with
-      | RD => if wl s || wp s then rret s t (RQUnl q false) e else rret s t (RQCasR q (hq s) (rd s)) e
-      | WR => if wl s || negb (N.eqb (rd s) 0) then rret s t (RQUnl q false) e else rret s t (RQCasW q (wp s) (hq s)) e
+      | RD => if wl s || wp s then rret s t (RQUnl q false) e else rret s t (RQCas q false (hq s) (rd s)) e
+      | WR => if wl s || negb (N.eqb (rd s) 0) then rret s t (RQUnl q false) e else rret s t (RQCas q (wp s) (hq s) 0%N) e
       end
-  | RQCasR q shq srd =>
-      let ok := negb (wl s) && negb (wp s) && Bool.eqb (hq s) shq && N.eqb (rd s) srd in
-      let x := renc false false shq srd in
-      let e := EvCas VState ro_q_cas ro_q_casf x (x + 8) (rword s) ok in
-      if ok then
-        let s1 := rlog (rs_rholders (rs_rd s (rd s + 1)%N) (t :: rholders s)) t (rres_q q) in
-        rret (rs_queue s1 (qrem t (rqueue s1))) t (RFix1 (RFQ q)) e
-      else rret s t (RQLoad q) e
-  | RQCasW q swp shq =>
-      let ok := negb (wl s) && N.eqb (rd s) 0 && Bool.eqb (wp s) swp && Bool.eqb (hq s) shq in
-      let x := renc false swp shq 0 in
-      let e := EvCas VState ro_q_cas ro_q_casf x (x + 1) (rword s) ok in
-      if ok then
-        let s1 := rlog (rs_wholders (rs_wl s true) (t :: wholders s)) t (rres_q q) in
-        rret (rs_queue s1 (qrem t (rqueue s1))) t (RFix1 (RFQ q)) e
-      else rret s t (RQLoad q) e
+  | RQCas q swp shq srd =>
+      match rkind_q q with
+      | RD =>
+          let ok := negb (wl s) && negb (wp s) && Bool.eqb (hq s) shq && N.eqb (rd s) srd in
+          let x := renc false false shq srd in
+          let e := EvCas VState ro_q_cas ro_q_casf x (x + 8) (rword s) ok in
+          if ok then
+            let s1 := rlog (rs_rholders (rs_rd s (rd s + 1)%N) (t :: rholders s)) t (rres_q q) in
+            rret (rs_queue s1 (qrem t (rqueue s1))) t (RFix1 (RFQ q)) e
+          else rret s t (RQLoad q) e
+      | WR =>
+          let ok := negb (wl s) && N.eqb (rd s) 0 && Bool.eqb (wp s) swp && Bool.eqb (hq s) shq in
+          let x := renc false swp shq 0 in
+          let e := EvCas VState ro_q_cas ro_q_casf x (x + 1) (rword s) ok in
+          if ok then
+            let s1 := rlog (rs_wholders (rs_wl s true) (t :: wholders s)) t (rres_q q) in
+            rret (rs_queue s1 (qrem t (rqueue s1))) t (RFix1 (RFQ q)) e
+          else rret s t (RQLoad q) e
+      end
   | RFix1 f => rdo_fix1 s t f
   | RFix2 f =>
       let next := match f with
@@ -393,6 +398,9 @@ Definition rwsys (progs : nat -> list rop) : system :=
 
 Definition rw_replay_trace (progs : nat -> list rop) (tr : list (nat * rch * mev)) : option rwstate + nat :=
   replay (rwsys progs) mev_eqb (rwinit progs) tr.
+
+Definition rw_replay_from (progs : nat -> list rop) (s : rwstate) (tr : list (nat * rch * mev)) : option rwstate + nat :=
+  replay (rwsys progs) mev_eqb s tr.
 
 Definition rwpeek (s : rwstate) (t : nat) (c : rch) : option mev :=
   match rwstep s t c with Some (_, e) => Some e | None => None end.
